@@ -49,12 +49,18 @@ type faultPlan struct {
 	fired        int
 	snapLists    int      // List(snapshot) calls so far (= opens)
 	lastSnaps    []uint64 // the last listing of snapshot epochs, newest first
+
+	// the in-memory-merge scenario (`memmerge`): the categories mm-mseg / mm-load / mm-snap hit the Persist of the merged
+	// segment, its Load, and the snapshot Persist that FOLLOWS the merge of the root the held persister grabs
+	mmArmed  bool
+	mmMerged bool            // the merged segment of that grab has been written
+	mmFired  map[string]bool // which mm- categories fired
 }
 
 const faultsRule = "a generated batch history (as in the stream `recover`, plus clean reopens and reader observations) run on a real index.Writer over a real FileSystemDirectory through a recording Directory with a fault injector underneath: one fault per case in the quick tier (two in the thorough tier) on the k-th operation of a category — Persist of a snapshot / a segment / a merged segment (before any byte, after a partial write, after the full write), Load of a snapshot / a segment, List of snapshots / segments, Remove of a snapshot / a segment — transient or repeated on the next operations of the category. Observed: every Batch return value, every AsyncError call, a fresh Reader's documents after every step, the directory listing after every record, no hang (time-outs), crash images of the faulted trace opened by the real OpenReader/OpenWriter in child processes, and that the acknowledgement following a failure covers everything applied before it. One evaluation = one record or one crash image; a case is non-trivial when its fault fired and distinct by fault plan + event-kind sequence"
 
 func parseFaultPlan(f []string) *faultPlan {
-	p := &faultPlan{seen: map[string]int{}}
+	p := &faultPlan{seen: map[string]int{}, mmFired: map[string]bool{}}
 	for _, pre := range []string{"f", "g"} {
 		op := ""
 		for _, w := range f {
@@ -141,6 +147,48 @@ func (p *faultPlan) check(op string, locked bool) (bool, string) {
 	return false, ""
 }
 
+// mmCheck: the categories of the in-memory-merge scenario; they do not count operations, they are eligible while the
+// scenario is armed (from the release of the held persister until its snapshot write has gone through).
+func (p *faultPlan) mmCheck(op string) (bool, string) {
+	p.mu.Lock()
+	if !p.mmArmed {
+		p.mu.Unlock()
+		return false, ""
+	}
+	for _, s := range p.specs {
+		if s.op == op && s.hits < s.count {
+			s.hits++
+			first := !p.armed
+			p.armed = true
+			p.fired++
+			p.mmFired[op] = true
+			if s.hits >= s.count {
+				p.pendingClear = true
+			}
+			place := s.place
+			p.mu.Unlock()
+			if first {
+				p.c.record(fmt.Sprintf("fstart %s:%s", op, place))
+			}
+			p.c.mu.Lock()
+			p.c.jobErrInjected = true // the in-memory merge and what follows it are the persister's own job
+			p.c.mu.Unlock()
+			return true, place
+		}
+	}
+	p.mu.Unlock()
+	return false, ""
+}
+
+func (p *faultPlan) hasMM() bool {
+	for _, s := range p.specs {
+		if strings.HasPrefix(s.op, "mm-") {
+			return true
+		}
+	}
+	return false
+}
+
 // newestHit: category load-newest — during the idx-th open that lists snapshots, Load fails for the `count` newest epochs.
 func (p *faultPlan) newestHit(id uint64) bool {
 	p.mu.Lock()
@@ -225,6 +273,16 @@ func (d *faultDir) Load(kind string, id uint64) (*segment.Data, io.Closer, error
 			return d.inner.Load(kind, id)
 		}
 	}
+	if kind == index.ItemKindSegment {
+		d.p.c.mu.Lock()
+		merged := d.p.c.mergeSeg[id]
+		d.p.c.mu.Unlock()
+		if merged {
+			if bad, _ := d.p.mmCheck("mm-load"); bad {
+				return nil, nil, errInjected
+			}
+		}
+	}
 	if kind == index.ItemKindSnapshot && d.p.newestHit(id) {
 		d.p.c.record(fmt.Sprintf("loadfail %d", id))
 		return nil, nil, errInjected
@@ -267,7 +325,33 @@ func (d *faultDir) Persist(kind string, id uint64, w index.WriterTo, closeCh cha
 		}
 		d.p.c.mu.Unlock()
 	}
-	bad, place := d.p.check(op, false)
+	bad, place := false, ""
+	switch op {
+	case "persist-mseg":
+		bad, place = d.p.mmCheck("mm-mseg")
+		if !bad {
+			d.p.mu.Lock()
+			if d.p.mmArmed {
+				d.p.mmMerged = true
+			}
+			d.p.mu.Unlock()
+		}
+	case "persist-snap":
+		d.p.mu.Lock()
+		after := d.p.mmArmed && d.p.mmMerged
+		d.p.mu.Unlock()
+		if after {
+			bad, place = d.p.mmCheck("mm-snap")
+			if !bad { // the snapshot that follows the in-memory merge goes through: the scenario is over
+				d.p.mu.Lock()
+				d.p.mmArmed = false
+				d.p.mu.Unlock()
+			}
+		}
+	}
+	if !bad {
+		bad, place = d.p.check(op, false)
+	}
 	if !bad {
 		return d.inner.Persist(kind, id, w, closeCh)
 	}
@@ -429,6 +513,51 @@ func (h *HR) genFaults(r *hlib.Rand, tier string, scale int, emit func(string)) 
 			emit("rd")
 			emit("end")
 		}
+		// deliberate: the in-memory-merge path of the persister (a root with >= 2 segments that are not persisted, forced by
+		// holding the persister at the grab), with a fault on the merged segment's Persist, on its Load, and on the snapshot
+		// Persist that FOLLOWS the merge; safe callers, unsafe callers with callbacks, and unsafe callers of which one has none
+		{
+			places := []string{"before", "partial", "after"}
+			type mm struct{ op, place string }
+			mms := []mm{{"mm-snap", "before"}, {"mm-snap", "partial"}, {"mm-snap", "after"}, {"mm-mseg", places[round%3]}, {"mm-load", "before"}}
+			if tier == "thorough" {
+				mms = append(mms, mm{"mm-mseg", places[(round+1)%3]}, mm{"mm-mseg", places[(round+2)%3]})
+			}
+			for mi, m := range mms {
+				mode := (mi + round) % 3 // 0 safe, 1 unsafe with callbacks, 2 unsafe, one caller without a callback
+				count := 1
+				if (mi+round)%4 == 3 {
+					count = 2
+				}
+				emit(fmt.Sprintf("case %d n=%d unsafe=%d merge=2 jit=%d seed=%d fop=%s fidx=1 fplace=%s fcount=%d", ci, 1+ci%3, b2i(mode != 0), r.Intn(2), r.Intn(1<<30), m.op, m.place, count))
+				ci++
+				nb := 2 + (mi+round)%2
+				var ps []string
+				for i := 0; i < nb; i++ {
+					tok++
+					sp := batchSpec{tok: tok, cb: mode == 1 || (mode == 2 && i > 0)}
+					if i > 0 && r.Chance(50) {
+						sp.keys = []int{r.Intn(3)}
+					}
+					ps = append(ps, sp.String())
+				}
+				emit("memmerge " + strings.Join(ps, " "))
+				emit("rd")
+				emit("wait")
+				emit("rd")
+				emit("fclear")
+				tok++
+				emit("b " + batchSpec{tok: tok, cb: mode != 0}.String())
+				emit("rd")
+				if mi%2 == 0 {
+					tok++
+					tok++
+					emit("memmerge " + batchSpec{tok: tok - 1, cb: mode != 0}.String() + " " + batchSpec{tok: tok, cb: mode != 0, dels: []int{tok - 2}}.String())
+					emit("rd")
+				}
+				emit("end")
+			}
+		}
 		for ki, k := range kinds {
 			n := 1 + (ci % 3)
 			unsafe := (ci+round)%3 == 2
@@ -503,9 +632,71 @@ func (h *HR) genFaults(r *hlib.Rand, tier string, scale int, emit func(string)) 
 	}
 }
 
+// memMerge forces the in-memory-merge path of the persister: it is held in Directory.Stats() (pausePersisterForMergerCatchUp,
+// before the grab) until every batch of the line is in the root, so that the root it then grabs holds >= 2 segments that
+// are not persisted (persistSnapshotMaybeMerge merges them, writes and loads the merged segment, then writes the snapshot).
+func (c *caseRun) memMerge(specs []batchSpec, p *faultPlan, st *hlib.Stats) bool {
+	if c.w == nil || len(specs) < 2 {
+		return true
+	}
+	sg := &statsGate{armed: true, held: make(chan struct{}), release: make(chan struct{})}
+	c.mu.Lock()
+	c.sgate = sg
+	base := c.applied
+	c.mu.Unlock()
+	release := func() {
+		c.mu.Lock()
+		if sg.armed {
+			sg.armed = false
+		} else {
+			select {
+			case <-sg.release:
+			default:
+				close(sg.release)
+			}
+		}
+		c.sgate = nil
+		c.mu.Unlock()
+	}
+	var wg sync.WaitGroup
+	ok := true
+	for i, sp := range specs {
+		wg.Add(1)
+		go c.runBatch(sp, &wg)
+		ok = c.waitApplied(base+i+1, 2*time.Second) && ok
+	}
+	select {
+	case <-sg.held:
+	case <-time.After(2 * time.Second):
+		ok = false
+	}
+	if ok {
+		st.Count("memmerge:unpersisted-segments-behind-held-persister")
+		if p != nil {
+			p.mu.Lock()
+			p.mmArmed, p.mmMerged = true, false
+			p.mu.Unlock()
+		}
+	} else {
+		st.Count("memmerge:not-set-up")
+	}
+	release()
+	return waitTimeout(&wg, 60*time.Second)
+}
+
 func (h *HR) execFaultOp(lt *lifetime, f []string) {
 	c := lt.c
 	switch f[0] {
+	case "memmerge":
+		var specs []batchSpec
+		for _, s := range f[1:] {
+			specs = append(specs, parseSpec(s))
+		}
+		if !c.memMerge(specs, lt.faults, h.st) {
+			c.mu.Lock()
+			c.log = append(c.log, rec{op: "hang batch", state: "hang"})
+			c.mu.Unlock()
+		}
 	case "rd":
 		c.observeReader("step")
 	case "fclear":
